@@ -29,6 +29,7 @@ import (
 	"github.com/quay/claircore/alpine"
 	"github.com/quay/claircore/debian"
 	"github.com/quay/claircore/libvuln/driver"
+	"github.com/quay/claircore/updater/osv"
 	"github.com/quay/claircore/verifharness/internal/hx"
 )
 
@@ -240,6 +241,10 @@ func (h *harness) sectionHistOps() {
 		}
 		h.opDparse(pool)
 	}
+	h.osvWitness()
+	for sc := h.cfg.N(30, 300); sc > 0 && !r.Stop(); sc-- {
+		h.osvScenario()
+	}
 	// ---- alpine: the witness of fix 9c7e43c2 (a 5xx on a release directory in a
 	// walk that completes; the mirror answers again under the same stamp)
 	h.alpineWitness()
@@ -384,7 +389,8 @@ func (h *harness) alpineScenario() {
 		switch x := rn.Intn(10); {
 		case x < 2: // last-update fails
 			w.mu.Lock()
-			w.faults["alpine.test/last-update"] = randFault(rn)
+			// (not a body that breaks off: a conditional request may be answered 304, without a body)
+			w.faults["alpine.test/last-update"] = []fault{{status: 500}, {status: 502}, {status: 503}, {status: 429}, {net: true}}[rn.Intn(5)]
 			w.mu.Unlock()
 			r.Op("alp f", call(), false)
 			w.mu.Lock()
@@ -479,5 +485,172 @@ func (h *harness) alpineWitness() {
 	}
 	if !found {
 		r.Fail("", fmt.Sprintf("alpine factory: HEAD v3.4/ answered 500 in the first enumeration and 200 in the second (last-update unchanged): the second UpdaterSet call hands out %v, without the updater of v3.4", names))
+	}
+	// the same for a repository file, under a new stamp
+	w.put("alpine.test/last-update", 200, "text/plain", []byte("stamp-2"), "etag", `"s2"`)
+	w.faults["alpine.test/v3.5/main.json"] = fault{status: 503}
+	js2 := strings.Replace(strings.Join(js, ","), hs("v3.5")+"/"+hs("main")+"=o", hs("v3.5")+"/"+hs("main")+"=x", 1)
+	out, _ = call()
+	r.Op("alp s 2 "+hs(`"s2"`)+" 3.3=o,3.4=o,3.5=o "+js2, out, true)
+	delete(w.faults, "alpine.test/v3.5/main.json")
+	out, names = call()
+	r.Op("alp s 2 "+hs(`"s2"`)+" 3.3=o,3.4=o,3.5=o "+strings.Join(js, ","), out, true)
+	r.Case("alpine factory: a repository skipped on a 5xx comes back under the same stamp", true)
+	found = false
+	for _, n := range names {
+		if n == "alpine-main-v3.5-updater" {
+			found = true
+		}
+	}
+	if !found {
+		r.Fail("", fmt.Sprintf("alpine factory: HEAD v3.5/main.json answered 503 in one enumeration and 200 in the next (last-update unchanged): the next UpdaterSet call hands out %v, without alpine-main-v3.5-updater", names))
+	}
+}
+
+// osvWitness: the OSV factory against a bucket that answers conditional
+// requests: ecosystems.txt stays the same while the ecosystems' databases
+// change.  Every UpdaterSet call must hand out the updaters of the listed
+// ecosystems (they are what fetches the new databases); a read error on
+// ecosystems.txt in one call must not silence the following calls.
+func (h *harness) osvWitness() {
+	ctx, r := h.ctx, h.r
+	w := newWorld()
+	w.conditional = true
+	w.put("osv.test/ecosystems.txt", 200, "text/plain", []byte("PyPI\nGo\nMaven\n"), "etag", `"ecosystems-1"`)
+	f := new(osv.Factory)
+	if err := f.Configure(ctx, func(v any) error {
+		if c, ok := v.(*osv.FactoryConfig); ok {
+			c.URL = "http://osv.test/"
+		}
+		return nil
+	}, w.client()); err != nil {
+		r.Fail("", "osv factory: configure: "+err.Error())
+		return
+	}
+	names := func() ([]string, error) {
+		us, err := f.UpdaterSet(ctx)
+		if err != nil {
+			return nil, err
+		}
+		var out []string
+		for _, u := range us.Updaters() {
+			out = append(out, u.Name())
+		}
+		sort.Strings(out)
+		return out, nil
+	}
+	first, err := names()
+	r.Case("osv factory: enumeration repeated with an unchanged ecosystems.txt", true)
+	if err != nil || len(first) != 3 {
+		r.Fail("", fmt.Sprintf("osv factory: first enumeration of PyPI, Go, Maven: %v %v", first, err))
+		return
+	}
+	for i := 2; i <= 3; i++ {
+		got, err := names()
+		if err != nil || strings.Join(got, ",") != strings.Join(first, ",") {
+			r.Fail("", fmt.Sprintf("osv factory: enumeration %d against a bucket whose ecosystems.txt is unchanged (the server answers the conditional request with 304) hands out the updaters %v (%v), the first one handed out %v: the ecosystems' databases are not fetched again", i, got, err, first))
+			return
+		}
+	}
+	// a read error on a NEW ecosystems.txt, then the bucket answers properly
+	w.put("osv.test/ecosystems.txt", 200, "text/plain", []byte("PyPI\nGo\nMaven\nRubyGems\n"), "etag", `"ecosystems-2"`)
+	w.faults["osv.test/ecosystems.txt"] = fault{body: true}
+	_, err1 := names()
+	delete(w.faults, "osv.test/ecosystems.txt")
+	got, err2 := names()
+	r.Case("osv factory: ecosystems.txt breaks off once", true)
+	if err2 != nil || len(got) != 4 {
+		r.Fail("", fmt.Sprintf("osv factory: the body of a new ecosystems.txt (4 ecosystems) broke off in one enumeration (result: %v); the next enumeration, answered properly, hands out %v (%v)", err1, got, err2))
+	}
+}
+
+// osvScenario: one osv.Factory against a bucket that answers conditional
+// requests; ops `osvf new | f | l <etag> <readOK> <lines>` (Model/JoinHist.lean osvStep).
+func (h *harness) osvScenario() {
+	ctx, r, rn := h.ctx, h.r, h.rnd
+	w := newWorld()
+	w.conditional = true
+	f := new(osv.Factory)
+	if err := f.Configure(ctx, func(v any) error {
+		if c, ok := v.(*osv.FactoryConfig); ok {
+			c.URL = "http://osv.test/"
+		}
+		return nil
+	}, w.client()); err != nil {
+		r.Fail("", "osv factory: configure: "+err.Error())
+		return
+	}
+	r.Op("osvf new", "ok", false)
+	pool := []string{"PyPI", "Go", "Maven", "npm", "RubyGems", "crates.io", "NuGet", "Debian:11", "Debian:12", "Alpine:v3.18", "Alpine", "Linux", "Ubuntu:22.04:LTS", "Packagist", "Rocky Linux:8", "go", "PYPI", "Hex", "GitHub Actions", "Bitnami"}
+	version := 0
+	var lines []string
+	etag := ""
+	publish := func() {
+		version++
+		lines = nil
+		for _, i := range perm(rn, len(pool))[:2+rn.Intn(8)] {
+			lines = append(lines, pool[i])
+		}
+		etag = fmt.Sprintf(`"eco-%d"`, version)
+		if rn.Chance(1, 6) {
+			etag = "" // a bucket without validators
+		}
+		extra := []string{}
+		if etag != "" {
+			extra = []string{"etag", etag}
+		}
+		w.put("osv.test/ecosystems.txt", 200, "text/plain", []byte(strings.Join(lines, "\n")+"\n"), extra...)
+	}
+	call := func() string {
+		var us driver.UpdaterSet
+		out := hx.Guard(func() string {
+			var err error
+			us, err = f.UpdaterSet(ctx)
+			if err != nil {
+				return "err"
+			}
+			return "ok"
+		})
+		if out != "ok" {
+			return out
+		}
+		var names []string
+		for _, u := range us.Updaters() {
+			names = append(names, u.Name())
+		}
+		sort.Strings(names)
+		for i := range names {
+			names[i] = hs(names[i])
+		}
+		if len(names) == 0 {
+			return "set -"
+		}
+		return "set " + strings.Join(names, ",")
+	}
+	publish()
+	for ev := 3 + rn.Intn(6); ev > 0; ev-- {
+		switch x := rn.Intn(10); {
+		case x < 2:
+			w.faults["osv.test/ecosystems.txt"] = []fault{{status: 500}, {status: 503}, {net: true}, {status: 429}}[rn.Intn(4)]
+			r.Op("osvf f", call(), false)
+			delete(w.faults, "osv.test/ecosystems.txt")
+			r.Count("osvf:fault")
+			continue
+		case x < 5:
+			publish()
+		}
+		ok := "1"
+		if rn.Chance(1, 6) {
+			ok = "0"
+			w.faults["osv.test/ecosystems.txt"] = fault{body: true}
+		}
+		var toks []string
+		for _, l := range lines {
+			toks = append(toks, hs(l))
+		}
+		out := call()
+		delete(w.faults, "osv.test/ecosystems.txt")
+		r.Op("osvf l "+hs(etag)+" "+ok+" "+strings.Join(toks, ","), out, strings.HasPrefix(out, "set "))
+		r.Count("osvf:" + strings.SplitN(out, " ", 2)[0])
 	}
 }
